@@ -80,7 +80,8 @@ def p1_inventory(ctx, cfgs):
 
 def run(ctx):
     cfgs = ["main"] if ctx.tier == "quick" else ["main", "yaml", "json5", "bare"]
-    rules = [p1_inventory(ctx, cfgs)]
+    from rules import offsets
+    rules = [p1_inventory(ctx, cfgs), offsets.rule_boundaries(ctx)]
     return rules
 
 MANIFEST_ENTRY = {
